@@ -3,6 +3,7 @@ package hcdkg
 import (
 	"context"
 	"fmt"
+	pb "github.com/wealdtech/eth2-signer-api/pb/v1"
 	"time"
 
 	"github.com/attestantio/dirk/core"
@@ -61,6 +62,10 @@ func classify(err error) outcome {
 // Participants of every generation are {1,2}; peer 3 is a configured peer that is NOT a participant.
 func lifecycle(k int) { lifecycleFrom(nil, k) }
 
+// viaReceiver: the events are delivered through the real gRPC receiver handlers (as a peer's sender
+// would deliver them); the handlers' errors are opaque, so outcomes are compared as accepted/refused.
+var viaReceiver bool
+
 // lifecycleFrom runs the fixed prefix of events (pairs event,name) and then k free events.
 func lifecycleFrom(prefix [][2]int, k int) {
 	vsym.ForbidCrash()
@@ -68,6 +73,14 @@ func lifecycleFrom(prefix [][2]int, k int) {
 	ids := []uint64{1, 2, 3}
 	c := newCluster(ctx, ids, genTimeout)
 	me := c.nodes[2]
+	via := viaReceiver
+	callerOf := func(from uint64) context.Context { return c.callerCtx(ctx, peerName(ids, from)) }
+	okOrError := func(err error) outcome {
+		if err == nil {
+			return oOK
+		}
+		return oError
+	}
 	parts := []*core.Endpoint{{ID: 1, Name: "signer-test01", Port: 8881}, {ID: 2, Name: "signer-test02", Port: 8882}}
 	names := []string{"accA", "accB"}
 	ref := map[string]*refGen{"accA": {}, "accB": {}}
@@ -103,7 +116,12 @@ func lifecycleFrom(prefix [][2]int, k int) {
 		var got, want outcome
 		switch ev {
 		case 0: // prepare
-			got = classify(me.proc.OnPrepare(ctx, 1, acct, passphrase, 2, parts))
+			if via {
+				_, err := me.handler.Prepare(callerOf(1), &pb.PrepareRequest{Account: acct, Passphrase: passphrase, Threshold: 2, Participants: pbEndpoints(parts)})
+				got = okOrError(err)
+			} else {
+				got = classify(me.proc.OnPrepare(ctx, 1, acct, passphrase, 2, parts))
+			}
 			if r.active {
 				want = oInProgress
 			} else {
@@ -113,7 +131,12 @@ func lifecycleFrom(prefix [][2]int, k int) {
 				r.contributed = map[uint64]bool{2: true}
 			}
 		case 1: // execute
-			got = classify(me.proc.OnExecute(ctx, 1, acct))
+			if via {
+				_, err := me.handler.Execute(callerOf(1), &pb.ExecuteRequest{Account: acct})
+				got = okOrError(err)
+			} else {
+				got = classify(me.proc.OnExecute(ctx, 1, acct))
+			}
 			if r.active {
 				want = oOK
 			} else {
@@ -125,8 +148,17 @@ func lifecycleFrom(prefix [][2]int, k int) {
 				from = 3
 			}
 			share, vvec := consistentContribution(2, 2)
-			_, _, err := me.proc.OnContribute(ctx, from, acct, share, vvec)
-			got = classify(err)
+			if via {
+				req := &pb.ContributeRequest{Account: acct, Secret: share.Serialize()}
+				for k := range vvec {
+					req.VerificationVector = append(req.VerificationVector, vvec[k].Serialize())
+				}
+				_, err := me.handler.Contribute(callerOf(from), req)
+				got = okOrError(err)
+			} else {
+				_, _, err := me.proc.OnContribute(ctx, from, acct, share, vvec)
+				got = classify(err)
+			}
 			if r.active {
 				want = oOK
 				r.contributed[from] = true
@@ -134,8 +166,13 @@ func lifecycleFrom(prefix [][2]int, k int) {
 				want = oNotInProgress
 			}
 		case 4: // commit
-			_, _, err := me.proc.OnCommit(ctx, 1, acct, []byte("confirmation data 0123456789abcdef"))
-			got = classify(err)
+			if via {
+				_, err := me.handler.Commit(callerOf(1), &pb.CommitRequest{Account: acct, ConfirmationData: []byte("confirmation data 0123456789abcdef")})
+				got = okOrError(err)
+			} else {
+				_, _, err := me.proc.OnCommit(ctx, 1, acct, []byte("confirmation data 0123456789abcdef"))
+				got = classify(err)
+			}
 			switch {
 			case !r.active:
 				want = oNotInProgress
@@ -159,7 +196,12 @@ func lifecycleFrom(prefix [][2]int, k int) {
 				vsym.Reach("commit-succeeded")
 			}
 		case 5: // abort
-			got = classify(me.proc.OnAbort(ctx, 1, acct))
+			if via {
+				_, err := me.handler.Abort(callerOf(1), &pb.AbortRequest{Account: acct})
+				got = okOrError(err)
+			} else {
+				got = classify(me.proc.OnAbort(ctx, 1, acct))
+			}
 			if r.active {
 				want = oOK
 				r.active = false
@@ -168,6 +210,13 @@ func lifecycleFrom(prefix [][2]int, k int) {
 			}
 		}
 		vsym.Out(fmt.Sprintf("ev%d", step), fmt.Sprintf("%d:%s:%d", ev, name, got))
+		if via {
+			vsym.Assert(fmt.Sprintf("S1-outcome-as-the-lifecycle-prescribes[event %d]", ev), (got == oOK) == (want == oOK))
+			if (got == oOK) != (want == oOK) {
+				return
+			}
+			continue
+		}
 		vsym.Assert(fmt.Sprintf("S1-outcome-as-the-lifecycle-prescribes[event %d]", ev), got == want)
 		if got != want {
 			return
@@ -200,4 +249,16 @@ func LifecycleRecommit() {
 func LifecycleKeptBusyProbe() {
 	msg := []int{0, 1, 4, 2}[vsym.Choose("kept-busy-with", 4)]
 	lifecycleFrom([][2]int{{0, 0}, {7, 0}, {msg, 0}, {7, 0}}, 1)
+}
+
+// LifecycleViaReceiver2/3: the free event sequences delivered through the receiver handlers.
+func LifecycleViaReceiver2() {
+	viaReceiver = true
+	defer func() { viaReceiver = false }()
+	lifecycle(2)
+}
+func LifecycleViaReceiver3() {
+	viaReceiver = true
+	defer func() { viaReceiver = false }()
+	lifecycle(3)
 }
